@@ -2409,9 +2409,7 @@ def run_c15(t):
             lin = b["lp"][0] in gen.LIN_KINDS
             for j, (g1, e1) in enumerate(zip(ge, exps)):
                 if not g1:
-                    # the simulator classes report {} for an empty neighbourhood; the library reports NaN for every arm
-                    if all(v != v for v in e1.values()):
-                        continue
+                    # (finding D37, repaired: the simulator classes reported {} for an empty neighbourhood where the library reports NaN for every arm)
                     return False, {"why": "bandit %s, record %d: the simulator reports no expectations, the public API reports %r" % (name, j, e1), "bandit": b}
                 if list(g1.keys()) != list(e1.keys()):
                     return False, {"why": "bandit %s, record %d: expectation keys %r differ from the public API's %r" % (name, j, list(g1.keys()), list(e1.keys())), "bandit": b}
